@@ -199,8 +199,12 @@ namespace {
          ipr::impl::Module* mod = module.get();
          add_custom("MODULE", static_cast<const ipr::Module*>(mod), [mod, this] {
             const ipr::Module& m = *mod;
-            std::string s = "units=[" + std::to_string(m.implementation_units().size()) + ":";
-            for (auto& u : m.implementation_units()) s += ctx.namer.of(static_cast<const void*>(&u)) + ",";
+            // like every sequence rendering: size, the first six members and the last one (the model vector covers the rest)
+            auto& us = m.implementation_units();
+            const std::size_t n = us.size();
+            std::string s = "units=[" + std::to_string(n) + ":";
+            for (std::size_t k = 0; k < n and k < 6; ++k) s += ctx.namer.of(static_cast<const void*>(&*us.position(k))) + ",";
+            if (n > 6) s += ".." + ctx.namer.of(static_cast<const void*>(&*us.position(n - 1)));
             return s + "];interface=" + (&m.interface_unit().parent_module() == &m ? "self" : "other") + ";";
          });
          refresh_all();
@@ -447,6 +451,7 @@ namespace {
       auto checkpoint = [](int i) { for (int p = 2; p <= (1 << 20); p <<= 1) if (i == p - 1 or i == p or i == p + 1) return true; return false; };
       // only the first, middle and last nodes handed out are kept as snapshots (everything else is covered by the model vectors)
       for (int i = 1; i <= K; ++i) {
+         opt.kick();
          const std::size_t born = w.snaps.size();
          auto dirty = w.apply(member_op);
          // interleave two unrelated factories
@@ -489,6 +494,7 @@ namespace {
          std::vector<std::u8string> text;
          auto spelled = [](int i) { std::u8string w = u8"word-number-"; for (int k = 0; k < 7; ++k) w += char8_t('a' + (i >> (4 * k)) % 16); w.append(std::size_t(i % 23), u8'.'); return w; };
          for (int i = 0; i < words; ++i) {
+            opt.kick();
             auto w = spelled(i);
             const ipr::String& s = lex.get_string(w);
             kept.push_back(&s); text.push_back(w);          // every String ever returned is re-read at every checkpoint
